@@ -783,12 +783,19 @@ func (p *Parser) evaluateImports(ctx context) ([]Statement, error) {
 		switch statement.StatementType() {
 		case STATEMENT_TYPE_VAR_DEFINITION:
 			definedVariable := statement.(VariableDefinition)
+			exists = true
 
+			// The definition has been added before only if all of its variables exist already (a short multi-definition
+			// may assign to names which an earlier statement of the same file has defined).
 			for _, variable := range definedVariable.Variables() {
 				name := variable.Name()
 
-				if _, exists = ctx.variables[name]; !exists && variable.Public() {
-					ctx.variables[name] = variable
+				if _, variableExists := ctx.variables[name]; !variableExists {
+					exists = false
+
+					if variable.Public() {
+						ctx.variables[name] = variable
+					}
 				}
 			}
 		case STATEMENT_TYPE_FUNCTION_DEFINITION:
